@@ -127,7 +127,20 @@ func opKeyUse(a []string) string {
 // keyrt CURVE X Y D [extras]  — coordinates as minimal big-endian hex ("" = 0), D "-" = public only
 // extras: "+kid" sets ID/Ops/BaseIV/extra param before serialising.
 func opKeyRT(a []string) string {
-	extras := len(a) > 4 && a[4] == "+"
+	extras := len(a) > 4 && strings.HasPrefix(a[4], "+")
+	nExtra := 1
+	if extras && len(a[4]) > 1 {
+		nExtra, _ = strconv.Atoi(a[4][1:])
+	}
+	addExtras := func(key *cose.Key) {
+		key.ID = []byte{1, 2}
+		key.Ops = []cose.KeyOp{cose.KeyOpSign, cose.KeyOpVerify}
+		key.BaseIV = []byte{9}
+		key.Params["x-extra"] = int64(5)
+		for i := 0; i < nExtra-1; i++ {
+			key.Params[int64(-(100 + i))] = int64(i)
+		}
+	}
 	if a[0] == "ed" {
 		pub := unhex(a[1])
 		var key *cose.Key
@@ -148,10 +161,7 @@ func opKeyRT(a []string) string {
 			return "new=err"
 		}
 		if extras {
-			key.ID = []byte{1, 2}
-			key.Ops = []cose.KeyOp{cose.KeyOpSign, cose.KeyOpVerify}
-			key.BaseIV = []byte{9}
-			key.Params["x-extra"] = int64(5)
+			addExtras(key)
 		}
 		enc, err := key.MarshalCBOR()
 		if err != nil {
@@ -191,10 +201,7 @@ func opKeyRT(a []string) string {
 		return "new=err"
 	}
 	if extras {
-		key.ID = []byte{1, 2}
-		key.Ops = []cose.KeyOp{cose.KeyOpSign, cose.KeyOpVerify}
-		key.BaseIV = []byte{9}
-		key.Params["x-extra"] = int64(5)
+		addExtras(key)
 	}
 	enc, err := key.MarshalCBOR()
 	if err != nil {
@@ -536,4 +543,58 @@ func opUse(a []string) string {
 	err = cs.Sign(rand.Reader, sgn, parent, []byte{1})
 	sb.WriteString(" cf=" + errClass(err) + ":" + dumpOptBytes(cs.Signature))
 	return sb.String()
+}
+
+// ecenc2 ALG CURVE R S : like ecenc, but the algorithm need not match the key's curve
+func opEcEnc2(a []string) string {
+	alg, _ := strconv.ParseInt(a[0], 10, 64)
+	curve, _ := curveOf(a[1])
+	r, s := parseSigned(a[2]), parseSigned(a[3])
+	der, err := asn1.Marshal(struct{ R, S *big.Int }{r, s})
+	if err != nil {
+		return "harness-error asn1"
+	}
+	stub := &asn1Stub{pub: &ecdsa.PublicKey{Curve: curve, X: big.NewInt(1), Y: big.NewInt(1)}, out: der}
+	signer, err := cose.NewSigner(cose.Algorithm(alg), stub)
+	if err != nil {
+		return "new=err"
+	}
+	sig, err := signer.Sign(rand.Reader, []byte("content"))
+	if err != nil {
+		if sig != nil {
+			return "err bytes-with-error"
+		}
+		return "err"
+	}
+	return "ok " + hx(sig)
+}
+
+// khist HEX,HEX,… : decode COSE_Keys one after the other into ONE variable
+func opKHist(a []string) string {
+	var k cose.Key
+	outs := []string{}
+	for _, st := range strings.Split(a[0], ",") {
+		if err := k.UnmarshalCBOR(unhex(st)); err != nil {
+			outs = append(outs, "err")
+			continue
+		}
+		sg, vf := "err", "err"
+		if s, err := k.Signer(); err == nil {
+			sg = "ok:" + strconv.FormatInt(int64(s.Algorithm()), 10)
+		}
+		oc := ""
+		if pub, err := k.PublicKey(); err == nil {
+			if ek, ok := pub.(*ecdsa.PublicKey); ok {
+				oc = "f"
+				if _, e := ek.ECDH(); e == nil {
+					oc = "t"
+				}
+			}
+		}
+		if v, err := k.Verifier(); err == nil {
+			vf = "ok:" + strconv.FormatInt(int64(v.Algorithm()), 10)
+		}
+		outs = append(outs, "ok:"+dumpKey(&k)+":"+sg+":"+vf+"#oc="+oc)
+	}
+	return strings.Join(outs, " ")
 }
